@@ -8,8 +8,6 @@ Import ListNotations.
 
 Definition np (s : st) : nat := length (s_proms s).
 
-Definition lands (e : err) (x : site) : Prop := In e (snd x).
-
 Definition chans_wf (s : st) : Prop :=
   forall id ok, In (id, ok) (s_chans s) -> option_map p_ok (nth_error (s_proms s) id) = Some ok.
 
